@@ -161,7 +161,7 @@ fn auth_plan(thorough: bool) -> Plan {
     ] {
         required.push(Box::leak(format!("c08:only_authorised_succeeded:{l}").into_boxed_str()));
     }
-    Plan { sc, depth: if thorough { 7 } else { 5 }, required }
+    Plan { sc, depth: if thorough { 8 } else { 5 }, required }
 }
 
 // ------------------------------------------------------------------------------------------ C10
@@ -197,7 +197,7 @@ fn breaker_plans(thorough: bool) -> Vec<Plan> {
         for kind in ["LiquidStake", "LiquidUnstake", "SubmitBatch", "Withdraw", "ReceiveRewards", "ReceiveUnstakedTokens"] {
             required.push(Box::leak(format!("c10:refused_while_halted:{kind}").into_boxed_str()));
         }
-        out.push(Plan { sc, depth: if thorough { 5 } else { 3 }, required });
+        out.push(Plan { sc, depth: if thorough { 6 } else { 3 }, required });
     }
     out
 }
@@ -285,7 +285,6 @@ fn hostile_plans(thorough: bool) -> Vec<Plan> {
         if k.fee <= 100_000 {
             // (a fee rate above 100 % refuses every reward, so the reward-based seeds do not exist there)
             seeds.push((format!("{}/rate_up", k.name), trim(|| seed_rate_up(&k), 120)));
-            seeds.push((format!("{}/ten_batches", k.name), trim(|| seed_ten_batches(&k), 120)));
             seeds.push((format!("{}/mid_received", k.name), trim(|| seed_mid_received(&k), 120)));
             seeds.push((format!("{}/received", k.name), trim(|| seed_received(&k), 120)));
             seeds.push((format!("{}/rate_down", k.name), trim(|| seed_rate_down(&k), 120)));
@@ -371,9 +370,17 @@ fn query_plans(thorough: bool) -> Vec<Plan> {
         sc.goal = None;
         sc.probe = Some(Box::new(query_probe));
         let wd = sc.name.contains("wd");
-        let d = if wd { depth.saturating_sub(2) } else { depth.saturating_sub(1) };
-        let req: Vec<&'static str> = if wd { vec!["c17:batches_2", "c17:batches_3"] } else { vec!["c17:queue_11plus", "c17:queue_2"] };
-        out.push(Plan { sc, depth: d.max(3), required: req });
+        let deep = sc.name.ends_with("+deep");
+        let d = if deep {
+            // (the query battery on a store with dozens of batches costs ~10^4 queries per state)
+            if thorough { 2 } else { 1 }
+        } else if wd {
+            depth.saturating_sub(2).max(3)
+        } else {
+            depth.saturating_sub(1).max(3)
+        };
+        let req: Vec<&'static str> = if deep { vec![] } else if wd { vec!["c17:batches_2", "c17:batches_3"] } else { vec!["c17:queue_11plus", "c17:queue_2"] };
+        out.push(Plan { sc, depth: d, required: req });
     }
     out
 }
@@ -404,9 +411,10 @@ pub fn run(prop: &str, thorough: bool) -> i32 {
     if prop == "C16" {
         crate::treasury_grid::panic_battery(&mut r);
         instantiate_battery(&mut r);
+        crate::grids::resume_lattice(&mut r, "C16", thorough);
     }
     for p in plans(prop, thorough) {
-        let lim = Limits { max_depth: p.depth, max_states: if thorough { 20_000_000 } else { 2_000_000 }, max_wall_s: if thorough { 3000.0 } else { 240.0 } };
+        let lim = Limits { max_depth: p.depth, max_states: if thorough { 20_000_000 } else { 2_000_000 }, max_wall_s: if thorough { 1500.0 } else { 240.0 } };
         r.run_scenario(&p.sc, lim, &p.required);
     }
     r.finish()
